@@ -201,9 +201,18 @@ def checkGain (cfg : PropCfg) (dk : Int) (g : Rat) (c : Option Rat) : Option Str
     else if !(close (pow5 c * (T * T * T)) 1) then some s!"gain {dk}: c^5 T^3 != 1"
     else none
   | none =>
-    -- Veitch: g + 0.1 = dk^-decay ∈ (0, 1] for dk ≥ 1
+    -- Veitch with the reference's constant (kept for replays of old traces): g + 0.1 = dk^-decay ∈ (0, 1]
     if dk ≥ 1 ∧ !(0 < g + 1/10 ∧ g + 1/10 ≤ 1 + rtol) then some s!"gain {dk}: dk^-decay not in (0,1]"
     else none
+
+/-- Veitch: `g = dk^-decay - c` with `c = T^-decay`: `g + c ∈ (0, 1]`, `c ∈ (0, 1]`, and inside the window
+    (`1 ≤ dk < T`) the gain is positive, at `dk = T` it vanishes, beyond it is negative. -/
+def checkGainV (cfg : PropCfg) (dk : Int) (g c : Rat) : Option String :=
+  if !(0 < c ∧ c ≤ 1 + rtol) then some s!"gainv {dk}: T^-decay not in (0,1]"
+  else if dk ≥ 1 ∧ !(0 < g + c ∧ g + c ≤ 1 + rtol) then some s!"gainv {dk}: dk^-decay not in (0,1]"
+  else if 1 ≤ dk ∧ dk < (cfg.T : Int) ∧ !(0 < g) then some s!"gainv {dk}: gain not positive inside the window"
+  else if dk > (cfg.T : Int) ∧ !(g < 0) then some s!"gainv {dk}: gain not negative beyond the window"
+  else none
 
 def checkSS (diag up : Bool) (n : Nat) (a : Rat) : Option String :=
   if n = 0 then some "ssa: n = 0" else
@@ -340,6 +349,13 @@ def handleLine (st : DState) (line : String) : DState × List String :=
         | none => ({ st with gains := (dk, g) :: st.gains }, [])
         | some e => ({ st with dead := true }, [s!"bad-oracle {e}"])
       | _, _, _ => ({ st with dead := true }, [s!"bad-op {line}"])
+    | ["gainv", dk, g, c] =>
+      match dk.toInt?, parseRat g, parseRat c, st.cfg with
+      | some dk, some g, some c, some cfg =>
+        match checkGainV cfg dk g c with
+        | none => ({ st with gains := (dk, g) :: st.gains }, [])
+        | some e => ({ st with dead := true }, [s!"bad-oracle {e}"])
+      | _, _, _, _ => ({ st with dead := true }, [s!"bad-op {line}"])
     | ["gain", dk, g, c] =>
       match dk.toInt?, parseRat g, parseRat c, st.cfg with
       | some dk, some g, some c, some cfg =>
